@@ -346,6 +346,13 @@ Proof.
   - rewrite chain_cons2 in Hr. destruct Hr as [<-|Hr]; [reflexivity | eapply IH; eauto].
 Qed.
 
+(* a tombstoned document has no live leaf *)
+Lemma tombstoned_live_at t parent : tree_tombstoned t = true -> live_at t parent.
+Proof.
+  unfold tree_tombstoned. destruct (winner t) as [w|] eqn:Ew; [|discriminate]. intros Hd x Hx Dx.
+  rewrite (winner_deleted_all t w Ew Hd x Hx) in Dx. discriminate.
+Qed.
+
 (* ---------- the shape of every plan ---------- *)
 Definition all_live (t : tree) : Prop := forall r, In r t -> r_deleted r = false.
 
@@ -368,17 +375,22 @@ Proof.
     split.
     { destruct par as [p|]; [|exact I]. eapply put_check_parent_in; eauto. }
     intros -> A. eapply put_check_live_at; eauto.
-  - unfold push_check. destruct (split_known t (h :: hist) []) as [news parent] eqn:Es.
+  - intros H. apply push_plan_add_inv in H. rewrite Epush in H. revert H.
+    unfold push_check. destruct (split_known t (h :: hist) []) as [news parent] eqn:Es.
     destruct (split_known_spec t (h :: hist) [] news parent Es) as (Hf & Hp); [intros x []|].
     destruct news as [|x r]; [discriminate|].
-    destruct (illegal_conflict ac t parent (w_deleted o) (h :: hist)) eqn:Eill; [discriminate|].
+    destruct (negb (o_force (w_opt o) && tree_tombstoned t) &&
+              illegal_conflict (ac && negb (o_noconf (w_opt o))) t parent (w_deleted o) (h :: hist)) eqn:Eill; [discriminate|].
     destruct (gens_ok parent (x :: r)) eqn:Eg; [|discriminate]. intros H. injection H as H.
     assert (En : nr = chain parent (x :: r) (w_deleted o)) by (rewrite <- H; reflexivity). clear H. subst nr.
     exists parent. split; [apply chain_nonempty; discriminate|].
     destruct (chain_adds (x :: r) t parent (w_deleted o) Hf Eg Hp) as (A & C).
     split; [exact A|]. split; [exact C|]. split; [apply chain_last; discriminate|]. split.
     { intros Hd. rewrite Hd. intros z Hz. eapply chain_live; eauto. }
-    split; [exact Hp|]. intros -> Am. eapply not_illegal_live_at; eauto.
+    split; [exact Hp|]. intros -> Am. apply andb_false_iff in Eill as [Eskip|Eill].
+    + (* the conflict check was skipped: the document is a tombstone, it has no live leaf *)
+      apply negb_false_iff, andb_true_iff in Eskip as [_ Et]. apply tombstoned_live_at, Et.
+    + cbn [andb] in Eill. eapply not_illegal_live_at; eauto.
 Qed.
 
 (* one run of the callback keeps the tree well-formed, in either mode *)
@@ -480,4 +492,154 @@ Proof.
   - exfalso. assert (Ha : a = r) by (assert (H : In a (leaves t)) by (rewrite E; left; reflexivity); apply (sc_leaves t S) in H; congruence).
     assert (Hb : b = r) by (assert (H : In b (leaves t)) by (rewrite E; right; left; reflexivity); apply (sc_leaves t S) in H; congruence).
     subst a b. inv Hnd. apply H1. left; reflexivity.
+Qed.
+
+(* ---------- one child per parent (conflict-free mode) ---------- *)
+(* every revision is the only child of its parent *)
+Definition uc (t : tree) : Prop :=
+  forall x y q, In x t -> In y t -> r_parent x = Some q -> r_parent y = Some q -> x = y.
+
+Lemma uc_nil : uc [].
+Proof. intros x y q []. Qed.
+
+Lemma split_known_parent_in t hist : forall acc news parent, split_known t hist acc = (news, parent) ->
+  match parent with Some p => In p hist | None => True end.
+Proof.
+  induction hist as [|h r IH]; intros acc news parent H; cbn in H.
+  - inv H. exact I.
+  - destruct (has_rev t h) eqn:E.
+    + inv H. left; reflexivity.
+    + specialize (IH _ _ _ H). destruct parent; [right; exact IH | exact I].
+Qed.
+
+(* IsIllegalConflict's three legal shapes all attach the new revisions below a LEAF (or start a new root) *)
+Lemma not_illegal_parent_leaf t parent del hist : wf t ->
+  match parent with Some p => has_rev t p = true /\ In p hist | None => True end ->
+  illegal_conflict false t parent del hist = false ->
+  forall q, parent = Some q -> has_child t q = false.
+Proof.
+  intros W Hp H q ->. destruct Hp as [Hr Hin]. unfold illegal_conflict in H. destruct (winner t) as [w|] eqn:Ew.
+  2:{ exfalso. apply winner_none in Ew. destruct (wf_has_leaf t W) as (x & Hx).
+      - intros ->. cbn in Hr. discriminate.
+      - rewrite Ew in Hx. destruct Hx. }
+  destruct (orevid_eqb (Some q) (Some (r_id w))) eqn:Ep.
+  - apply orevid_eqb_eq in Ep. inv Ep. eapply winner_is_leaf; eauto.
+  - destruct del.
+    + apply negb_false_iff, andb_true_iff in H as [Hl _]. unfold is_leaf in Hl. apply andb_true_iff in Hl as [_ Hc].
+      apply negb_true_iff in Hc. exact Hc.
+    + destruct (r_deleted w); [|discriminate]. exfalso.
+      assert (Ht : existsb (has_rev t) hist = true) by (apply existsb_exists; exists q; auto). congruence.
+Qed.
+
+Lemma add_uc t r : wf t -> uc t -> good_add t r -> (forall q, r_parent r = Some q -> has_child t q = false) ->
+  uc (t ++ [r]) /\ has_child (t ++ [r]) (r_id r) = false.
+Proof.
+  intros W U [Hfresh Hpar] Hleaf. split.
+  - intros x y q Hx Hy Ex Ey. apply in_app_or in Hx as [Hx|[<-|[]]]; apply in_app_or in Hy as [Hy|[<-|[]]].
+    + eapply U; eauto.
+    + exfalso. assert (Hc : has_child t q = true) by (apply has_child_in; eauto). rewrite (Hleaf q Ey) in Hc. discriminate.
+    + exfalso. assert (Hc : has_child t q = true) by (apply has_child_in; eauto). rewrite (Hleaf q Ex) in Hc. discriminate.
+    + reflexivity.
+  - rewrite has_child_app. apply orb_false_iff. split.
+    + destruct (has_child t (r_id r)) eqn:E; [|reflexivity]. apply has_child_in in E as (y & Hy & Ey).
+      rewrite (wf_parent t W y _ Hy Ey) in Hfresh. discriminate.
+    + unfold has_child. cbn. rewrite orb_false_r. destruct (orevid_eqb (r_parent r) (Some (r_id r))) eqn:E; [|reflexivity].
+      apply orevid_eqb_eq in E. rewrite E in Hpar. destruct Hpar as [_ Hlt]. lia.
+Qed.
+
+Lemma adds_uc nr : forall t parent, wf t -> uc t -> adds t nr -> chain_from parent nr ->
+  (forall q, parent = Some q -> has_child t q = false) -> uc (t ++ nr).
+Proof.
+  induction nr as [|r nr IH]; intros t parent W U A C Hleaf; [rewrite app_nil_r; exact U|].
+  destruct A as [G A]. destruct C as [Ep C]. rewrite <- Ep in Hleaf.
+  destruct (add_uc t r W U G Hleaf) as (U' & Hc). rewrite snoc_app.
+  apply IH with (Some (r_id r)); auto; [apply wf_add; assumption|]. intros q E. inv E. exact Hc.
+Qed.
+
+(* the parent one run of the callback attaches its revisions to has no child yet -- unless the conflict check was
+   skipped: a pushed revision written with ForceAllowConflictingTombstone onto a document that is a tombstone *)
+Definition forced_on_tombstone (o : wop) (t : tree) : Prop :=
+  w_push o <> [] /\ o_force (w_opt o) = true /\ tree_tombstoned t = true.
+
+Lemma plan_parent_leaf ac tab o att m t nr parent : wf t -> ac && negb (o_noconf (w_opt o)) = false ->
+  plan_of ac tab o att m t = Some (PAdd nr) -> nr <> [] -> chain_from parent nr ->
+  (forall q, parent = Some q -> has_child t q = false) \/ forced_on_tombstone o t.
+Proof.
+  intros W Hcf. unfold plan_of. destruct (w_push o) as [|h hist] eqn:Epush.
+  - destruct (put_check ac t (parent_eff o m) (w_deleted o)) as [par|] eqn:Epc; [|discriminate].
+    destruct (dig_lookup tab _) as [dg|]; [|discriminate].
+    destruct (has_rev t (gen_of par + 1, dg)) eqn:Eh; intros H; inv H. intros _ [Ep _]. cbn in Ep. subst parent.
+    left. eapply put_check_leaf; eauto.
+  - intros H. apply push_plan_add_inv in H. rewrite Epush, Hcf in H. revert H.
+    unfold push_check. destruct (split_known t (h :: hist) []) as [news parent0] eqn:Es.
+    destruct (split_known_spec t (h :: hist) [] news parent0 Es) as (Hf & Hp); [intros x []|].
+    pose proof (split_known_parent_in t (h :: hist) [] news parent0 Es) as Hin.
+    destruct news as [|x r]; [discriminate|].
+    destruct (negb (o_force (w_opt o) && tree_tombstoned t) &&
+              illegal_conflict false t parent0 (w_deleted o) (h :: hist)) eqn:Eill; [discriminate|].
+    destruct (gens_ok parent0 (x :: r)) eqn:Eg; [|discriminate]. intros H. injection H as H.
+    assert (En : nr = chain parent0 (x :: r) (w_deleted o)) by (rewrite <- H; reflexivity). clear H. subst nr.
+    intros _ C. assert (Epar : parent = parent0).
+    { destruct r as [|y r']; [cbn in C | rewrite chain_cons2 in C; cbn [chain_from r_parent] in C]; destruct C as [E _]; symmetry; exact E. }
+    subst parent0. apply andb_false_iff in Eill as [Eskip|Eill].
+    + right. apply negb_false_iff, andb_true_iff in Eskip as [Ef Et]. split; [rewrite Epush; discriminate | auto].
+    + left. eapply not_illegal_parent_leaf; eauto. destruct parent as [p|]; [split; assumption | exact I].
+Qed.
+
+(* conflict-free mode: one run of the callback keeps "every revision is the only child of its parent", unless it
+   is a forced tombstone written onto a tombstoned document *)
+Lemma plan_uc tab o att m t nr : wf t -> uc t -> plan_of false tab o att m t = Some (PAdd nr) ->
+  uc (t ++ nr) \/ forced_on_tombstone o t.
+Proof.
+  intros W U H. destruct (plan_shape _ _ _ _ _ _ _ H) as (parent & Hne & A & C & _).
+  destruct (plan_parent_leaf false tab o att m t nr parent W eq_refl H Hne C) as [Hleaf|F]; [left | right; exact F].
+  eapply adds_uc; eauto.
+Qed.
+
+(* ... and, whatever the earlier writes did (forced ones included), the revisions an unforced write adds get a
+   parent that had no child, and are the only children of their parents *)
+Lemma adds_new_only_child nr : forall t parent, wf t -> adds t nr -> chain_from parent nr ->
+  (forall q, parent = Some q -> has_child t q = false) ->
+  forall x y q, In x (t ++ nr) -> In y nr -> r_parent x = Some q -> r_parent y = Some q -> x = y.
+Proof.
+  induction nr as [|r nr IH]; intros t parent W A C Hleaf x y q Hx Hy Ex Ey; [destruct Hy|].
+  destruct A as [G A]. destruct C as [Ep C]. rewrite <- Ep in Hleaf.
+  assert (Hc : has_child (t ++ [r]) (r_id r) = false).
+  { destruct G as [Hfresh Hpar]. rewrite has_child_app. apply orb_false_iff. split.
+    - destruct (has_child t (r_id r)) eqn:E; [|reflexivity]. apply has_child_in in E as (z & Hz & Ez).
+      rewrite (wf_parent t W z _ Hz Ez) in Hfresh. discriminate.
+    - unfold has_child. cbn. rewrite orb_false_r. destruct (orevid_eqb (r_parent r) (Some (r_id r))) eqn:E; [|reflexivity].
+      apply orevid_eqb_eq in E. rewrite E in Hpar. destruct Hpar as [_ Hlt]. lia. }
+  assert (Hleaf' : forall q0, Some (r_id r) = Some q0 -> has_child (t ++ [r]) q0 = false) by (intros q0 E; inv E; exact Hc).
+  pose proof (IH (t ++ [r]) (Some (r_id r)) (wf_add t r W G) A C Hleaf') as IH'.
+  rewrite snoc_app in Hx. destruct Hy as [<-|Hy].
+  - (* y = r, the first new revision: its parent had no child in t, and the later new revisions hang below r *)
+    apply in_app_or in Hx as [Hx|Hx].
+    + apply in_app_or in Hx as [Hx|[<-|[]]]; [|reflexivity]. exfalso.
+      assert (Hch : has_child t q = true) by (apply has_child_in; eauto). rewrite (Hleaf q Ey) in Hch. discriminate.
+    + (* x among the later ones and has the same parent as r: by IH' applied with y := x ... x is the only child of q
+         in (t ++ [r]) ++ nr, and r is in it *)
+      symmetry. apply (IH' r x q); auto. apply in_or_app. left. apply in_or_app. right. left. reflexivity.
+  - apply (IH' x y q); auto.
+Qed.
+
+Lemma plan_new_only_child ac tab o att m t nr : wf t -> ac && negb (o_noconf (w_opt o)) = false ->
+  plan_of ac tab o att m t = Some (PAdd nr) ->
+  forced_on_tombstone o t \/
+  (forall x y q, In x (t ++ nr) -> In y nr -> r_parent x = Some q -> r_parent y = Some q -> x = y).
+Proof.
+  intros W Hcf H. destruct (plan_shape _ _ _ _ _ _ _ H) as (parent & Hne & A & C & _).
+  destruct (plan_parent_leaf _ _ _ _ _ _ _ parent W Hcf H Hne C) as [Hleaf|F]; [right | left; exact F].
+  eapply adds_new_only_child; eauto.
+Qed.
+
+(* the converse: with the option on a tombstoned document the conflict check is not consulted at all -- the plan
+   is the one of a database that allows conflicts *)
+Lemma forced_plan_ignores_conflicts ac o t : o_force (w_opt o) = true -> tree_tombstoned t = true ->
+  push_plan ac o t = Some (push_check true true t (w_push o) (w_deleted o)) /\
+  push_check true true t (w_push o) (w_deleted o) <> PConflict.
+Proof.
+  intros Hf Ht. unfold push_plan. rewrite Hf, Ht. cbn [andb]. unfold push_check.
+  destruct (split_known t (w_push o) []) as [news parent]. destruct news as [|x r]; [split; [reflexivity | discriminate]|].
+  cbn [negb andb]. destruct (gens_ok parent (x :: r)); split; try reflexivity; discriminate.
 Qed.
